@@ -1,5 +1,6 @@
 import PMV.Proofs.PyCore
 import PMV.Proofs.PyCoreInst
+import PMV.Proofs.PyCoreMono
 /-
   C01 — With the default options a minified program behaves like the original.
   `Spec.PyCore` gives a first-order core of Python (ints, bools, strings, None; assignment, `if`,
@@ -55,6 +56,12 @@ theorem constant_folding_preserves (t : Printer.PrecTable) (sp : Token.Spacing) 
 theorem convert_posargs_preserves (n : Nat) (m : Module) (hcore : (run n m).ending ≠ "stuck") :
     run n (removePosargs m) = run n m :=
   run_removePosargs n m hcore
+
+/-- T01.9: fuel only bounds loop iterations and call depth: a run that ends within fuel `n` (anything but `timeout`)
+    is the same at every larger fuel — "for every fuel" above speaks about the program, not about the bound. -/
+theorem more_fuel_same_behaviour (n k : Nat) (m : Module) (h : (run n m).ending ≠ "timeout") :
+    run (n + k) m = run n m :=
+  run_more_fuel n k m h
 
 /-- the switches whose transform is not covered by a PyCore theorem are off -/
 def CoreOnly (o : Opts) : Prop :=
